@@ -1263,7 +1263,10 @@ class Scene(Geometry3D):
                 if "matrix" in edge_data[uv]:
                     props = edge_data[uv]
                     T = edge_data[uv]["matrix"].copy()
-                    T[:3, 3] *= scale
+                    # the scale is along the axes of the base frame while the
+                    # translation of an edge is in the frame of its parent node
+                    R = self.graph.get(uv[0])[0][:3, :3]
+                    T[:3, 3] = np.linalg.solve(R, scale * np.dot(R, T[:3, 3]))
                     props["matrix"] = T
                     result.graph.update(frame_from=uv[0], frame_to=uv[1], **props)
             # Clear cache
